@@ -29,50 +29,70 @@ let sublist off n l = fst (take (min n (max 0 (List.length l - off))) (drop off 
 let split_on_str (sep : string) (s : string) : string list =
   Str.split_delim (Str.regexp_string sep) s
 
+let k_of_first g = match g with (k, _, _, _) :: _ -> k | [] -> 0
 (* ------------------------------------------------------------ reply cases *)
+(* rounds are processed in groups: a held round ("h<id>") and the round after it form one group whose two
+   requests are both registered (CSend, CSend) before the datagrams of both arrive; every delivery goes to the
+   round that registered the slot last. *)
 let run_reply fl toks =
   match toks with
   | sec :: r :: rest ->
     let secret = bytes_of_hex (kv sec "secret") in
     let rounds = int_of_string r in
     let st = ref pending0 in
-    let out = ref [] in
+    let out = Array.make rounds "" in
     let rest = ref rest in
-    for _ = 1 to rounds do
-      (match !rest with
-       | id :: code :: auth :: attrs :: nd :: more ->
-         let nd = int_of_string nd in
-         let (dgs, more) = take nd more in
-         rest := more;
-         let ab = bytes_of_hex attrs in
-         let attrs = match parse_attrs (nat_of_int (List.length ab + 1)) ab with Some a -> a | None -> failwith "attrs" in
-         let idn = n_of_int (int_of_string id) in
-         (match build_request md5f secret (n_of_int (int_of_string code)) idn (bytes_of_hex auth) attrs with
-          | None -> out := "noreq:true" :: !out
+    let parse_round () =
+      match !rest with
+      | id :: code :: auth :: attrs :: nd :: more ->
+        let nd = int_of_string nd in
+        let (dgs, more) = take nd more in
+        rest := more;
+        let isheld = String.length id > 0 && id.[0] = 'h' in
+        let id = if isheld then String.sub id 1 (String.length id - 1) else id in
+        let ab = bytes_of_hex attrs in
+        let attrs = match parse_attrs (nat_of_int (List.length ab + 1)) ab with Some a -> a | None -> failwith "attrs" in
+        let idn = n_of_int (int_of_string id) in
+        (isheld, idn, build_request md5f secret (n_of_int (int_of_string code)) idn (bytes_of_hex auth) attrs, List.map bytes_of_hex dgs)
+      | _ -> failwith "bad reply case" in
+    let show d =
+      let len = int_of_n (List.nth d 2) * 256 + int_of_n (List.nth d 3) in
+      Printf.sprintf "%d:%s:%s" (int_of_n (List.hd d)) (hex_of_bytes (sublist 4 16 d)) (hex_of_bytes (sublist 20 (len - 20) d)) in
+    let i = ref 0 in
+    while !i < rounds do
+      let (h1, id1, rq1, d1) = parse_round () in
+      let group = if h1 && !i + 1 < rounds then [(!i, id1, rq1, d1); (let (_, id2, rq2, d2) = parse_round () in (!i + 1, id2, rq2, d2))]
+        else [(!i, id1, rq1, d1)] in
+      i := !i + List.length group;
+      (* register the requests in order *)
+      let owner = Hashtbl.create 4 in
+      List.iter (fun (k, idn, rq, _) ->
+          match rq with
+          | None -> out.(k) <- "noreq:true"
           | Some req ->
             let (s1, _) = cstep md5f fl secret !st (CSend (idn, req)) in
-            st := s1;
-            let got = ref None in
-            List.iter (fun d ->
-                let d = bytes_of_hex d in
-                let (s2, o) = cstep md5f fl secret !st (CRecv d) in
-                st := s2;
-                match o with
-                | Some i when !got = None -> got := Some (i, d)
-                | Some _ -> got := Some (n_of_int 999, d)
-                | None -> ()) dgs;
-            let g = match !got with
-              | None -> let (s3, _) = cstep md5f fl secret !st (CTimeout idn) in st := s3; "timeout"
-              | Some (i, d) ->
-                if i <> idn then "MODELBUG"
-                else
-                  let len = int_of_n (List.nth d 2) * 256 + int_of_n (List.nth d 3) in
-                  Printf.sprintf "%d:%s:%s" (int_of_n (List.hd d)) (hex_of_bytes (sublist 4 16 d))
-                    (hex_of_bytes (sublist 20 (len - 20) d)) in
-            out := ("req=" ^ hex_of_bytes req ^ " got=" ^ g) :: !out)
-       | _ -> failwith "bad reply case")
+            st := s1; Hashtbl.replace owner (int_of_n idn) k;
+            out.(k) <- "req=" ^ hex_of_bytes req ^ " got=timeout") group;
+      let delivered = Hashtbl.create 4 in
+      List.iter (fun (_, _, _, dgs) ->
+          List.iter (fun d ->
+              let (s2, o) = cstep md5f fl secret !st (CRecv d) in
+              st := s2;
+              match o with
+              | Some idd ->
+                (match Hashtbl.find_opt owner (int_of_n idd) with
+                 | Some k when not (Hashtbl.mem delivered k) ->
+                   Hashtbl.replace delivered k ();
+                   (match List.find (fun (k', _, _, _) -> k' = k) group with
+                    | (_, _, Some req, _) -> out.(k) <- "req=" ^ hex_of_bytes req ^ " got=" ^ show d
+                    | _ -> out.(k) <- "MODELBUG")
+                 | _ -> out.(k_of_first group) <- "MODELBUG")
+              | None -> ()) dgs) group;
+      List.iter (fun (k, idn, rq, _) ->
+          if rq <> None && not (Hashtbl.mem delivered k) then
+            (let (s3, _) = cstep md5f fl secret !st (CTimeout idn) in st := s3)) group
     done;
-    String.concat " ; " (List.rev !out)
+    String.concat " ; " (Array.to_list out)
   | _ -> "badcase"
 
 (* ------------------------------------------------------------ CoA cases *)
